@@ -35,9 +35,13 @@ func drawKey(t *rapid.T, c elliptic.Curve) (*patecdsa.PrivateKey, *stdecdsa.Priv
 	case 1:
 		d.Sub(n, big.NewInt(1))
 	}
-	pk, err := patecdsa.CreateKey(c, d.Bytes())
+	dBuf := d.Bytes()
+	pk, err := patecdsa.CreateKey(c, dBuf)
 	if err != nil {
 		t.Fatalf("CreateKey: %v", err)
+	}
+	for i := range dBuf {
+		dBuf[i] ^= 0xFF // the caller reuses its buffer: the key must not alias it
 	}
 	x, y := c.ScalarBaseMult(d.Bytes())
 	return pk, &stdecdsa.PrivateKey{PublicKey: stdecdsa.PublicKey{Curve: c, X: x, Y: y}, D: d}
